@@ -146,6 +146,29 @@ def run_program(item):
                 dp, _ = Flow(*src(), *links(), rec).process()
                 return final_results(dp, seen)
             cmp('process()', run_guard(process_mode))
+
+            def process_last_conditional():
+                # the flow ENDS in an (always-true) conditional and is run through process(): the package it returns
+                ls = links()
+                seen = []
+
+                def rec(package):
+                    yield package.pkg
+
+                    def tap(res, cur):
+                        for row in res:
+                            cur.append(copy.deepcopy(row))
+                            yield row
+                    for res in package:
+                        cur = []
+                        seen.append(cur)
+                        yield tap(res, cur)
+                dp, _ = Flow(*src(), *ls[:-1], conditional(lambda dp: True, Flow(ls[-1], rec))).process()
+                if dp is None:
+                    raise AssertionError('process() returned no datapackage')
+                return final_results(dp, seen)
+            if n >= 1:
+                cmp('process()-ending-in-conditional', run_guard(process_last_conditional))
         return dict(ok=not diffs, raised=ref[0] == 'raised', diffs=diffs[:3])
     finally:
         shutil.rmtree(root, ignore_errors=True)
@@ -185,11 +208,16 @@ def programs(r, t):
             progs.append(dict(prog=[n], input=inp))
     pairs = [(a, b) for a in names for b in names]
     r.shuffle(pairs)
+    pairs = [(a, b) for a, b in pairs if a != b]
     for a, b in pairs[: (300 if t == 'quick' else len(pairs))]:
-        progs.append(dict(prog=[a, b], input=r.choice(['I1', 'I1', 'I4', 'I2'])))
+        progs.append(dict(prog=[a, b], input=r.choice(['I1', 'I1', 'I4', 'I2', 'I5'])))
     for _ in range(300 if t == 'quick' else 4000):
         n = r.randint(3, 8 if t == 'thorough' else 6)
-        progs.append(dict(prog=[r.choice(names) for _ in range(n)], input=r.choice(['I0', 'I1', 'I1', 'I2', 'I3', 'I4'])))
+        progs.append(dict(prog=r.sample(names, n), input=r.choice(['I0', 'I1', 'I1', 'I2', 'I3', 'I4', 'I5', 'I5'])))     # every entry at most once: a step that adds a fixed name twice is ill-typed
+    for a in ('duplicate', 'duplicate_end', 'dump_to_path', 'stream', 'checkpoint', 'sort_a', 'join_keep'):
+        for b in ('nested_inplace', 'row_inplace'):
+            progs.append(dict(prog=[a, b], input='I5'))
+            progs.append(dict(prog=[a, 'filter_fn', b], input='I5'))
     return progs
 
 
